@@ -3605,6 +3605,11 @@ class EnvPath(cabc.MutableSequence):
 
         def __exit__(self, exc_type, exc_val, exc_tb):
             if self.obj.target_env_var and self.before != self.obj._l:
+                if XSH.env is not None:
+                    # an in-place edit through a held reference (``p = $PATH;
+                    # p.append(d)``) must not leave a stale detyped mapping
+                    # for the next child process
+                    XSH.env._detyped = None
                 events.on_envvar_change.fire(
                     name=self.obj.target_env_var,
                     oldvalue=self.before,
